@@ -19,7 +19,7 @@ func init() {
 	Register(&Property{
 		ID: "C15", Level: "exploration",
 		Rule: "E1: 7 methods x criteria n in 2..4 x considered values full product ({1,2,3}^(2n) for n=2, {1,2}^(2n) for n=3,4) x 3 weight vectors (ascending, descending, with a tie); " +
-			"options within 2 deviations (n=4: 1) of the default over: ratio {0.5,0,0.25,0.34,0.75,1}, min {-,0,1,2}, max {-,0,1,2}, ordering (5 + default), an undeclared extra parameter entry, one cost criterion, " +
+			"options within 2 deviations (n=4: 1) of the default over: ratio {0.5,0,0.25,0.34,0.75,1,0.3333333333,0.9999999999}, min {-,0,1,2}, max {-,0,1,2}, ordering (5 + default), an undeclared extra parameter entry, one cost criterion, " +
 			"random seed / scripted constant generator answers. Oracle: k = clamp(floor(n*ratio),min,max) omitted, all declared and reported; result bytes == result of the request with those criteria deleted everywhere; " +
 			"weakest: no kept criterion less important than an omitted one under the documented importance; strongest (k=n-1) is the exact reverse of weakest; random orderings are permutations; " +
 			"frequency clause over real seeds 0..4095: weakestByProbability puts the least important criterion first more often than the most important one (strongestByProbability the opposite). " +
@@ -431,8 +431,8 @@ func c15Frequency(c *Case) []Violation {
 
 func c15Run(s *Shard) {
 	cur = s
-	wsets := map[int][][]float64{2: {{1, 2}, {2, 1}, {2, 2}, {0, 1}}, 3: {{1, 2, 3}, {3, 2, 1}, {2, 2, 1}, {1, 0, 2}}, 4: {{1, 2, 3, 4}, {4, 3, 2, 1}, {2, 2, 1, 3}}}
-	ratios := []float64{0.5, 0, 0.25, 0.34, 0.75, 1}
+	wsets := map[int][][]float64{2: {{1, 2}, {2, 1}, {2, 2}, {0, 1}}, 3: {{1, 2, 3}, {3, 2, 1}, {2, 2, 1}, {1, 0, 2}, {5e-7, 1e-7, 3e-7}}, 4: {{1, 2, 3, 4}, {4, 3, 2, 1}, {2, 2, 1, 3}}}
+	ratios := []float64{0.5, 0, 0.25, 0.34, 0.75, 1, 0.3333333333, 0.9999999999}
 	mins := []int{-1, 0, 1, 2}
 	maxs := []int{-1, 0, 1, 2}
 	seeds := []struct {
